@@ -216,6 +216,8 @@ pub struct Cfg {
     pub sub: u8,
     /// under OpenTelemetry: handlers make their nested call with `context::current()`
     pub nested_with_current: bool,
+    /// `max_in_flight_requests` of every client in the chain (None = the default)
+    pub client_max_in_flight: Option<usize>,
 }
 impl Cfg {
     pub fn random(seed: u64) -> Cfg {
@@ -239,6 +241,7 @@ impl Cfg {
             otel: false,
             sub: 0,
             nested_with_current: false,
+            client_max_in_flight: None,
         }
     }
     pub fn to_json(&self) -> serde_json::Value {
@@ -519,7 +522,11 @@ async fn run_inner(cfg: &Cfg, out: &mut Outcome) {
         let base = BaseChannel::with_defaults(st);
         let drv = Driver { reqs: Box::pin(base.requests()), serve, sh: sh.clone(), hop };
         tasks.push(Task { name: format!("server{hop}"), fut: Some(Box::pin(drv)), flag: flag(), is_caller: None });
-        let nc = client::new::<String, String, _>(client::Config::default(), ct);
+        let mut ccfg = client::Config::default();
+        if let Some(m) = cfg.client_max_in_flight {
+            ccfg.max_in_flight_requests = m;
+        }
+        let nc = client::new::<String, String, _>(ccfg, ct);
         let disp = nc.dispatch;
         tasks.push(Task { name: format!("dispatch{hop}"), fut: Some(Box::pin(async move { let _ = disp.await; })), flag: flag(), is_caller: None });
         if hop == 0 {
